@@ -700,6 +700,22 @@ def step (s : WState) (op : Op) : WState × Out :=
 def workerViewStep (v : View) (op : Op) : View :=
   if reachesDispatch op.kind (fingerprintOf op) then (dispatchView v op).1 else v
 
+def isStop (op : Op) : Bool := op.kind == .softStop || op.kind == .hardStop
+
+/-- the requests a worker handles out of `ops` — everything up to and including the
+    first stop verb, nothing behind it — each with the state it found and what it
+    answered. With distinct request ids, the responses carrying the id of the
+    i-th handled request are exactly `resp` of the i-th entry. -/
+def trace : WState → List Op → List (WState × Op × Out)
+  | _, [] => []
+  | s, op :: rest =>
+    if s.stopped then [] else (s, op, (step s op).2) :: trace (step s op).1 rest
+
+/-- the ops up to and including the first stop verb -/
+def untilStop : List Op → List Op
+  | [] => []
+  | op :: rest => if isStop op then [op] else op :: untilStop rest
+
 def runState (s : WState) (ops : List Op) : WState :=
   ops.foldl (fun s op => (step s op).1) s
 
